@@ -53,6 +53,12 @@ re-attach  when a controller re-attaches a stream that is already on a circuit (
            reported with circuit 0 on a REMAP line; it is then unattached for every observer and is
            attached again by a later ``attach``.  (The variant without any line between
            ``SENTCONNECT 5`` and ``SENTCONNECT 7`` is not generated: DESIGN C07 leniency.)
+quoted     Tor >= 0.4.3 appends ``SOCKS_USERNAME="..." SOCKS_PASSWORD="..."`` (QuotedStrings, C
+           escapes for ``"`` and ``\\``, blanks sent literally) to every event of a stream that
+           authenticated over SOCKS5, and to the CIRC events of circuits isolated by such
+           credentials.  ``snew`` / ``launch`` carry them as ``su`` / ``sp`` (the wire form,
+           quotes included).  ``Ev.quoted_space`` marks lines where such a value contains a blank:
+           what a client that splits the line on blanks makes of that VALUE is unspecified.
 pairs      a connect stream that fails before its SOCKS request was answered is reported twice by
            Tor: ``STREAM n FAILED ..`` (from connection_ap_handshake_socks_reply) and, when the
            connection is finally closed, ``STREAM n CLOSED ..`` with the same reason
@@ -86,7 +92,10 @@ API in short
     sim.close_policy = f(kind, id) -> {"order": "together" | "event-first" | "ack-first", "as": "CLOSED" | "FAILED"}
     sim.held_acks + sim.release_ack(); sim.pending + sim.fire_pending()    # harness-owned ack / event order
     sim.leave_unattached, sim.commands, sim.on_events (observers), sim.stats (what the history contained)
-    script(rnd, pre, n) -> (population, history) off-line; selftest(); SimSession(sim, boot=...) = real
+    sim.gen_window(rnd) / sim.apply_unobserved(acts)    # steps inside the subscription window (NEW lost)
+    sim.known_streams() / sim.known_circuits()          # live objects Tor has reported; sim.zombies (FAILED, CLOSED due)
+    Ev flags: first_sight, gone, ghost (CLOSED after FAILED), attach, quoted_space, unspecified, snapshot
+    script(rnd, pre, n) -> (population, history), script_w(...) -> (population, window, history) off-line; selftest(); SimSession(sim, boot=...) = real
     TorControlProtocol + TorState bootstrapped against FakeTor + sim (.state .proto .tor .link .step(a) .pump())
 
 Not modelled (never generated): events of snapshot objects or circuit events inside the window,
@@ -193,6 +202,9 @@ TARGET_HOSTS = ["www.example.com", "torproject.org", "93.184.216.34", "a.b.c.exa
                 "www.example.org.$%s.exit" % hashlib.sha1(b"x").hexdigest().upper()]
 SOURCES = ["127.0.0.1", "127.0.0.1", "192.168.7.9", "::1", "fe80::2", "(Tor_internal)"]
 STREAM_PURPOSES = ["USER", "USER", "USER", "DIR_FETCH", "DIR_UPLOAD", "DNS_REQUEST", "DIRPORT_TEST"]
+# wire forms of SOCKS5 user names / passwords (QuotedString)
+QUOTED_VALUES = ['"alice"', '"bob"', '""', '"bob smith"', '"p w d"', '"x\\"y"', '"a\\\\b c"', '"tab\\there"',
+                 '"two  blanks"']
 REMAP_ADDRS = ["1.2.3.4", "87.248.112.181", "203.0.113.77", "[2001:db8::99]", "198.51.100.1"]
 
 BUILDING = ("LAUNCHED", "EXTENDED")
@@ -211,6 +223,8 @@ class SimCircuit(object):
         self.hs_state = None
         self.rend_query = None
         self.time_created = None
+        self.socks_user = None         # wire form, quotes included
+        self.socks_pass = None
         self.ever_built = False        # BUILT has been reported (event or snapshot)
         self.had_streams = False       # a stream was attached at some time (not "clean")
         self.marked = False            # a requested close is pending (no further steps)
@@ -235,6 +249,8 @@ class SimStream(object):
         self.cur_host = None           # current (re-mapped) address
         self.source = None             # "addr:port"
         self.purpose = None
+        self.socks_user = None
+        self.socks_pass = None
         self.succeeded = False
         self.marked = False
         self.modern = False            # newer Tor: CLIENT_PROTOCOL / NYM_EPOCH / ... keywords
@@ -268,11 +284,12 @@ class Ev(object):
     unspecified   True where the interfaces say nothing (NEWRESOLVE)
     first_sight   the controller had not heard of this object before
     gone      the object left Tor's tables with this event
+    quoted_space  a keyword value on the line is a QuotedString containing a blank
     ghost     the trailing CLOSED of a FAILED/CLOSED pair: the stream was already gone for every
               observer when this line was sent
     """
     __slots__ = ("kind", "oid", "uid", "status", "text", "keywords", "expect", "unspecified",
-                 "first_sight", "gone", "snapshot", "ghost", "attach")
+                 "first_sight", "gone", "snapshot", "ghost", "attach", "quoted_space")
 
     def __init__(self, kind, oid, uid, status, text, keywords):
         self.kind = kind
@@ -288,6 +305,7 @@ class Ev(object):
         self.snapshot = False
         self.ghost = False
         self.attach = None          # circuit id if this line is the one that reports the attachment
+        self.quoted_space = any(" " in v for v in keywords.values())   # a quoted value with a blank inside
 
     def __repr__(self):
         return "<Ev %s %s>" % (self.kind, self.text)
@@ -405,6 +423,10 @@ class TorSim(object):
             kw.append(("REASON", reason))
             if remote:
                 kw.append(("REMOTE_REASON", remote))
+        if c.socks_user is not None:
+            kw.append(("SOCKS_USERNAME", c.socks_user))
+        if c.socks_pass is not None:
+            kw.append(("SOCKS_PASSWORD", c.socks_pass))
         return kw
 
     def circ_line(self, c, status, reason=None, remote=None):
@@ -418,6 +440,10 @@ class TorSim(object):
     def stream_line(self, s, status, circ, kw=()):
         kw = list(kw)
         if s.modern and self.reporting:
+            if s.socks_user is not None:
+                kw.append(("SOCKS_USERNAME", s.socks_user))
+            if s.socks_pass is not None:
+                kw.append(("SOCKS_PASSWORD", s.socks_pass))
             kw += [("CLIENT_PROTOCOL", "SOCKS5"), ("NYM_EPOCH", "1"), ("SESSION_GROUP", "-4"),
                    ("ISO_FIELDS", "SOCKS_USERNAME,SOCKS_PASSWORD,CLIENTADDR,SESSION_GROUP,NYM_EPOCH")]
         parts = ["%d" % s.id, status, "%d" % circ, s.target] + ["%s=%s" % kv for kv in kw]
@@ -810,6 +836,10 @@ class TorSim(object):
         c.want_len = act["len"]
         c.hs_state = act.get("hs")
         c.rend_query = act.get("rq")
+        c.socks_user = act.get("su")
+        c.socks_pass = act.get("sp")
+        if c.socks_user is not None:
+            self._count("objects_with_quoted_keywords")
         self.circuits[c.id] = c
         ev = self._circ_event(c, "LAUNCHED")
         ev.expect.append(("circuit_launched",))
@@ -913,6 +943,11 @@ class TorSim(object):
         s.source = act["src"]
         s.purpose = act["purpose"]
         s.modern = bool(act.get("modern"))
+        if s.modern:
+            s.socks_user = act.get("su")
+            s.socks_pass = act.get("sp")
+            if s.socks_user is not None:
+                self._count("objects_with_quoted_keywords")
         self.streams[s.id] = s
         status = "NEW" if s.kind == "connect" else "NEWRESOLVE"
         kw = []
@@ -1099,11 +1134,15 @@ class TorSim(object):
             purpose = rnd.choice(CIRC_PURPOSES)
             flags = rnd.choice(BUILD_FLAG_SETS)
             hs = rnd.choice(HS_STATES[purpose]) if purpose in HS_STATES else None
+            su = sp = None
+            if rnd.random() < 0.15:
+                su, sp = rnd.choice(QUOTED_VALUES), rnd.choice(QUOTED_VALUES)
             out.append((2.5 if len(self.circuits) < 3 else 1.0, {
                 "a": "launch", "id": self._pick_id(rnd, free_c, self.freed_circuit_ids),
                 "purpose": purpose, "flags": flags, "tc": self._time() if rnd.random() < 0.9 else None,
                 "len": 1 if "ONEHOP_TUNNEL" in flags else rnd.choice([1, 2, 3, 3, 3, 4]),
-                "hs": hs, "rq": (rnd.choice(TARGET_HOSTS[4:6])[:-6] if hs and rnd.random() < 0.7 else None)}))
+                "hs": hs, "rq": (rnd.choice(TARGET_HOSTS[4:6])[:-6] if hs and rnd.random() < 0.7 else None),
+                "su": su, "sp": sp}))
         for c in self.circuits.values():
             if c.marked:
                 continue
@@ -1137,11 +1176,13 @@ class TorSim(object):
             port = 0 if kind == "resolve" else rnd.choice([80, 443, 9001, 6667, 65535, 1])
             src = rnd.choice(SOURCES)
             sport = 0 if src.startswith("(") else rnd.choice([1, 40000, 55877, 65535])
+            creds = rnd.random() < 0.4          # (only sent for "modern" streams)
             out.append((3.0 if len(self.streams) < 4 else 1.2, {
                 "a": "snew", "id": self._pick_id(rnd, free_s, self.freed_stream_ids), "kind": kind,
                 "target": "%s:%d" % (host, port), "src": "%s:%d" % (src, sport),
                 "purpose": "DNS_REQUEST" if kind == "resolve" and rnd.random() < 0.5 else rnd.choice(STREAM_PURPOSES),
-                "modern": rnd.random() < 0.3}))
+                "modern": rnd.random() < 0.3,
+                "su": rnd.choice(QUOTED_VALUES) if creds else None, "sp": rnd.choice(QUOTED_VALUES) if creds else None}))
         open_circs = [c.id for c in self.circuits.values() if c.status == "BUILT" and not c.marked]
         for s in self.streams.values():
             if s.circ_dead or s.marked:
@@ -1287,8 +1328,8 @@ def selftest(n=300, seed=1):
     """model invariants on random histories (attachment symmetric, ids unique, events well-formed)"""
     import random
     import re
-    circ_re = re.compile(r"^\d+ (LAUNCHED|EXTENDED|BUILT|GUARD_WAIT|CLOSED|FAILED)( \$[0-9A-F]{40}([~=]\w+)?(,\$[0-9A-F]{40}([~=]\w+)?)*)?( [A-Z_]+=\S+)*$")
-    stream_re = re.compile(r"^\d+ (NEW|NEWRESOLVE|REMAP|SENTCONNECT|SENTRESOLVE|SUCCEEDED|FAILED|CLOSED|DETACHED|CONTROLLER_WAIT) \d+ \S+:\d+( [A-Z_]+=\S+)*$")
+    circ_re = re.compile(r"^\d+ (LAUNCHED|EXTENDED|BUILT|GUARD_WAIT|CLOSED|FAILED)( \$[0-9A-F]{40}([~=]\w+)?(,\$[0-9A-F]{40}([~=]\w+)?)*)?( .*)?$")
+    stream_re = re.compile(r"^\d+ (NEW|NEWRESOLVE|REMAP|SENTCONNECT|SENTRESOLVE|SUCCEEDED|FAILED|CLOSED|DETACHED|CONTROLLER_WAIT) \d+ \S+:\d+( .*)?$")
     total = 0
     for k in range(n):
         rnd = random.Random("%s/%s" % (seed, k))
